@@ -8,6 +8,7 @@ import (
 	"math/big"
 	"sort"
 	"strings"
+	"sync"
 )
 
 type StructInfo struct {
@@ -33,6 +34,8 @@ type TypeWorld struct {
 	typeIDs   map[string]int
 	typeByID  []types.Type
 	shortUsed map[string]string
+	mu        sync.Mutex
+	sortCache map[types.Type]Sort
 }
 
 func NewTypeWorld() *TypeWorld {
@@ -65,6 +68,8 @@ func (w *TypeWorld) uniqueShort(t types.Type) string {
 
 // TypeID returns a stable small integer for a (dynamic) type.
 func (w *TypeWorld) TypeID(t types.Type) int {
+	w.mu.Lock()
+	defer w.mu.Unlock()
 	k := typeKey(t)
 	if id, ok := w.typeIDs[k]; ok {
 		return id
@@ -82,6 +87,12 @@ func isStruct(t types.Type) (*types.Struct, bool) {
 
 // SortOf maps a Go type to its SMT sort, registering struct datatypes.
 func (w *TypeWorld) SortOf(t types.Type) Sort {
+	w.mu.Lock()
+	defer w.mu.Unlock()
+	return w.sortOf(t)
+}
+
+func (w *TypeWorld) sortOf(t types.Type) Sort {
 	switch u := t.Underlying().(type) {
 	case *types.Basic:
 		switch {
@@ -96,12 +107,50 @@ func (w *TypeWorld) SortOf(t types.Type) Sort {
 		}
 		return SV
 	case *types.Struct:
-		return w.Struct(t).Sort
+		return w.structOf(t).Sort
 	}
 	return SV
 }
 
 func (w *TypeWorld) Struct(t types.Type) *StructInfo {
+	w.mu.Lock()
+	defer w.mu.Unlock()
+	return w.structOf(t)
+}
+
+func (w *TypeWorld) StructByKey(k string) *StructInfo {
+	w.mu.Lock()
+	defer w.mu.Unlock()
+	return w.structs[k]
+}
+
+func (w *TypeWorld) StructBySort(so Sort) *StructInfo {
+	w.mu.Lock()
+	defer w.mu.Unlock()
+	for _, si := range w.structs {
+		if si.Sort == so {
+			return si
+		}
+	}
+	return nil
+}
+
+func (w *TypeWorld) TypeByID(id int) types.Type {
+	w.mu.Lock()
+	defer w.mu.Unlock()
+	if id <= 0 || id >= len(w.typeByID) {
+		return nil
+	}
+	return w.typeByID[id]
+}
+
+func (w *TypeWorld) AllTypes() []types.Type {
+	w.mu.Lock()
+	defer w.mu.Unlock()
+	return append([]types.Type(nil), w.typeByID...)
+}
+
+func (w *TypeWorld) structOf(t types.Type) *StructInfo {
 	k := typeKey(t)
 	if si, ok := w.structs[k]; ok {
 		return si
@@ -112,7 +161,7 @@ func (w *TypeWorld) Struct(t types.Type) *StructInfo {
 	w.structs[k] = si // register first (no recursion by value possible in Go)
 	for i := 0; i < st.NumFields(); i++ {
 		f := st.Field(i)
-		fs := w.SortOf(f.Type())
+		fs := w.sortOf(f.Type())
 		if _, ok := isStruct(f.Type()); ok {
 			si.Deps = append(si.Deps, typeKey(f.Type()))
 		}
